@@ -706,7 +706,10 @@ func rootCause(hist []treefs.Op, ov, rm, r0 *treefs.Node, segs []string, state s
 			if srcBad {
 				return "copy-read-a-removed-remote-source"
 			}
-			if o.Kind != "CopyFile" && pendingUnder(i, o.P) {
+			if o.Kind != "CopyFile" && pendingUnder(i, o.P) && m.Kind != "wrong-data" {
+				// (children missing from / wrongly present in the copy; a copied file with STALE CONTENT is
+				// not a symptom of this gap: whichever version of the directory is taken holds the newest
+				// bytes of the files it has)
 				return "directory-copy-source-not-merged"
 			}
 		}
